@@ -312,6 +312,9 @@ func c08Programs(tier string) []*schedmc.Program {
 		{"L0/0 E40", "L0/70 U"},
 		{"L50/0 E90 S60 U", "S30 L0/45 U"},
 		{"L30/0", "S5 L0/80 U"},
+		// a Lease SHORTER than what is left of the lock's timeout: the lock is released at the end
+		// of the lease, the waiter gets it then
+		{"L200/0 E20", "S5 L0/80 U"},
 		// a timed lock that is acquired only after WAITING for the previous holder: its timeout
 		// counts from the acquisition (waiting longer than the timeout, and shorter)
 		{"L0/0 S40 U S5 L0/20 U", "S2 L30/90"},
